@@ -19,12 +19,15 @@ RULES = {
     "R6": "an initializer tensor is emitted under the name of its value: every emission of <value>.const_value into the "
           "proto's initializer list is dominated by the unconditional alignment <value>.const_value.name = <value>.name "
           "(the name a tensor happens to carry - shared tensor, tensor named differently at construction - never reaches the proto)",
+    "R7": "IR state is authoritative for a proto-backed object (shared with C02-R4): after a whole-message CopyFrom, a "
+          "repeated field that the serializer re-writes from the IR object is cleared on every path, so entries removed "
+          "from the IR object do not reappear from the copied proto",
     "R5": "scope precedence (shared rule S2): every lookup over the deserializer's stack of per-graph name tables lets the "
           "innermost binding win — first hit of a reversed scan, last write of a forward merge, ChainMap of the reversed "
           "stack — so a name that shadows an outer one is bound to the value of its own graph after a round trip",
     "R4": "determinism: no serialize function iterates a set-typed expression",
 }
-FLOORS = {"R1": 30, "R2": 40, "R3": 2, "R4": 30, "R5": 2, "R6": 1}
+FLOORS = {"R1": 30, "R2": 40, "R3": 2, "R4": 30, "R5": 2, "R6": 1, "R7": 1}
 EXPLANATION = (
     "Effect summaries (writes on non-proto, non-fresh objects, class-qualified) of every serialize function; "
     "comparison of the attribute sets read by the serializer and supplied by the deserializer per IR class; "
@@ -285,3 +288,6 @@ def run(ctx):
     rule_r4(ctx)
     rule_r5(ctx)
     rule_r6(ctx)
+    from . import c02
+
+    c02.rule_r4(ctx, rule="R7")
